@@ -171,10 +171,10 @@ def plan(ctx):
                          {"simulate": f"num={num // parts}", "depth": maxlen + 1, "seed": ctx.seed * 1000 + k + 1}))
 
     if ctx.thorough:
-        enum("full", 0, 2, 16)       # every template of <= 2 elements of the full menu
-        enum("core", 3, 4, 16)       # every sequence of 3-4 representatives
-        enum("mixed", 3, 3, 16, pick=8)   # any element followed by two representatives (seeded half)
-        walk(6000, 3, 6, 6)          # 3-6 elements sampled from the full menu
+        enum("full", 0, 2, 16, pick=6)    # every template of <= 1 element, 6/16 of all pairs of the full menu
+        enum("core", 3, 4, 16)            # every sequence of 3-4 representatives
+        enum("mixed", 3, 3, 16, pick=2)   # any element followed by two representatives (seeded 1/8)
+        walk(2000, 3, 6, 4)               # 3-6 elements sampled from the full menu
     else:
         enum("full", 0, 2, 48, pick=1)
         enum("core", 3, 3, 3, pick=1)
@@ -235,9 +235,10 @@ def run(ctx):
     ctx.rule = ("TLC enumerates sequences of grammar elements (full menu: 212 elements = every documented type x "
                 "decoration x option form for inputs, flags, outputs; core menu: 13 representatives) x value patterns "
                 "(nothing optional supplied / everything supplied / alternating); one case = one (template, values) state of "
-                "CmdTemplate_Gen; thorough: exhaustive for <= 2 elements of the full menu and <= 4 of the core menu, half of "
-                "full x core x core, and -simulate walks of 3-6 elements of the full menu; quick: seeded shards of the same "
-                "spaces (all templates of <= 1 element).  non-trivial = templates with >= 2 elements")
+                "CmdTemplate_Gen; thorough: exhaustive for <= 1 element of the full menu and <= 4 of the core menu, seeded "
+                "shards (6/16) of all pairs of the full menu and (1/8) of full x core x core, and -simulate walks of 3-6 "
+                "elements of the full menu; quick: seeded shards of the same spaces (all templates of <= 1 element).  "
+                "non-trivial = templates with >= 2 elements")
     ctx.extra["cases_by_template_length"] = {str(k): v for k, v in sorted(bylen.items())}
     ctx.extra["templates_defined"] = total_templates
     ctx.assume("the judged grammar is the one of docs/source/tutorial/5-shell.ipynb (built-in types and MIME-like formats; "
@@ -245,7 +246,7 @@ def run(ctx):
                "inputs are not generated")
 
     # real runs of an argv-dumping executable on a seeded sample
-    n_run = 1200 if ctx.thorough else 120
+    n_run = 800 if ctx.thorough else 120
     sample = ctx.rng.sample(sample, min(n_run, len(sample)))
     res = core.pmap(check_run, sample, chunksize=2)
     for case, (a, obs) in zip(sample, res):
